@@ -337,6 +337,42 @@ def lat1(ctx):
                 msg = (f"slot '{f.name}' receives flattened attribute '{got}' "
                        f"(misaligned with the dataclass field order)")
             ctx.ob("LAT-1", f"{ci.qualname}: field {f.name} survives flatten/unflatten", ok, msg, fl)
+        # tree_unflatten calls the constructor with the flattened values, so __post_init__ runs again on every round trip
+        # (and on every hand-over to a jitted function): a field carried into its own slot must not be recomputed *from
+        # its own value* there.  `self.f -= 1` / `self.f = g(self.f)` outside an `if self.f is None` guard compounds.
+        if post is not None:
+            carried = {f.name for f in fields if slots.get(f.name) == f.name}
+
+            def walk(stmts, guarded):
+                for st in stmts:
+                    if isinstance(st, ast.If):
+                        g_ = set(guarded)
+                        for c_ in ast.walk(st.test):
+                            if isinstance(c_, ast.Compare) and len(c_.ops) == 1 and isinstance(c_.ops[0], (ast.Is, ast.Eq)) and \
+                                    isinstance(c_.comparators[0], ast.Constant) and c_.comparators[0].value is None and \
+                                    _self_attr(c_.left):
+                                g_.add(_self_attr(c_.left))
+                        walk(st.body, g_)
+                        walk(st.orelse, guarded)
+                        continue
+                    for fld in ("body", "orelse", "finalbody"):
+                        sub = getattr(st, fld, None)
+                        if isinstance(sub, list) and sub and isinstance(sub[0], ast.stmt):
+                            walk(sub, guarded)
+                    tgt = val = None
+                    if isinstance(st, ast.AugAssign):
+                        tgt, val = _self_attr(st.target), st.target
+                    elif isinstance(st, ast.Assign) and len(st.targets) == 1:
+                        tgt, val = _self_attr(st.targets[0]), st.value
+                    if tgt and tgt in carried and tgt not in guarded:
+                        self_reads = isinstance(st, ast.AugAssign) or any(
+                            _self_attr(n_) == tgt and isinstance(getattr(n_, "ctx", None), ast.Load) for n_ in ast.walk(val))
+                        if self_reads:
+                            ctx.ob("LAT-1", f"{ci.qualname}: __post_init__ is idempotent on the carried field {tgt}", False,
+                                   f"`{ast.unparse(st)[:70]}` recomputes self.{tgt} from its own value and is not guarded by "
+                                   f"`self.{tgt} is None`: tree_unflatten passes the stored value back through the constructor, so "
+                                   f"the update is applied once more on every flatten / unflatten round trip", post, st.lineno)
+            walk(post.real_body(), set())
     if n == 0:
         raise AnalysisError("LAT-1 matched no registered pytree lattice class")
     ctx.rep.count("pytree_classes", n)
@@ -491,9 +527,9 @@ def _linear_form(node: ast.AST, base: str, env: Dict[str, Mono]) -> Optional[Dic
         for a, b in ((node.left, node.right), (node.right, node.left)):
             m = _mono(a, env)
             inner = _linear_form(b, base, env)
-            if m is not None and inner is not None and len(inner) == 1:
-                k, m0 = next(iter(inner.items()))
-                return {k: tuple(sorted(m + m0))}
+            if m is not None and inner is not None:
+                # a field monomial times a linear form distributes (Horner form: (pos[0] * l_y + pos[1]) * l_z + pos[2])
+                return {k: tuple(sorted(m + m0)) for k, m0 in inner.items()}
     return None
 
 
